@@ -9,6 +9,9 @@ import (
 	"strconv"
 	"time"
 
+	"github.com/samaritan-proxy/samaritan/pb/config/protocol"
+	pbredis "github.com/samaritan-proxy/samaritan/pb/config/protocol/redis"
+	"github.com/samaritan-proxy/samaritan/pb/config/service"
 	"github.com/samaritan-proxy/samaritan/proc/internal/log"
 )
 
@@ -81,6 +84,22 @@ type VerifSimple struct{ r *simpleRequest }
 // VerifNewClient is newClient over an established connection (filters as in production, no redirection callbacks).
 func VerifNewClient(conn net.Conn) (*VerifClient, error) {
 	c, err := newClient(conn, newConfig(nil), log.New("[verif-client]"))
+	if err != nil {
+		return nil, err
+	}
+	return &VerifClient{c: c}, nil
+}
+
+// VerifNewClientCompress is VerifNewClient with a compression section in the configuration
+// (the filter chain then rejects the commands banned under compression by itself).
+func VerifNewClientCompress(conn net.Conn, enable bool, threshold uint32) (*VerifClient, error) {
+	cfg := newConfig(&service.Config{
+		Protocol: protocol.Redis,
+		ProtocolOptions: &service.Config_RedisOption{RedisOption: &protocol.RedisOption{
+			Compression: &pbredis.Compression{Enable: enable, Threshold: threshold},
+		}},
+	})
+	c, err := newClient(conn, cfg, log.New("[verif-client]"))
 	if err != nil {
 		return nil, err
 	}
